@@ -12,7 +12,7 @@ BUILTIN = ["ENTRY_SIGNAL", "EXIT_SIGNAL", "INIT_SIGNAL", "REFLECTION_SIGNAL", "E
 # as they are not used through attribute access
 METHODISH = ["keys", "items", "values", "update", "append", "get", "pop", "clear", "copy", "name_for_signal",
              "is_inner_signal", "highest_inner_signal", "move_to_end", "setdefault"]
-ident = st.from_regex(r"[A-Za-z][A-Za-z0-9_]{0,8}", fullmatch=True)
+ident = st.from_regex(r"[A-Za-z_][A-Za-z0-9_]{0,8}", fullmatch=True)
 anyname = st.one_of(ident, ident, st.text(min_size=0, max_size=8), st.text(min_size=0, max_size=8),
                     st.sampled_from(BUILTIN), st.sampled_from(BUILTIN), st.sampled_from(METHODISH))
 
